@@ -221,8 +221,10 @@ impl World for Generators {
         let kind = *g.pick(&[Kind::RealGa, Kind::Es, Kind::Pso, Kind::RealRs, Kind::BinaryGa, Kind::PermRs]);
         let opts = GenOpts { penalty: false, max_iters: 5, evaluations_term: false, log: true };
         let params = gen_case(&mut g, kind, &opts);
-        let seed = g.u64();
-        RngCase { seed, other: seed ^ (1 << g.below(64)), n: 1 + g.below(6), kind, params }
+        // small seeds (0, 1, 2, ... are what experiments and tests use) next to arbitrary ones
+        let seed = if g.chance(0.3) { g.below(4) as u64 } else { g.u64() };
+        let other = if seed < 4 && g.chance(0.7) { seed ^ 1 } else { seed ^ (1 << g.below(64)) };
+        RngCase { seed, other, n: 1 + g.below(6), kind, params }
     }
     fn execute(&self, c: &RngCase) -> Outcome<RngCase> {
         use crate::tw::problems::*;
